@@ -40,12 +40,13 @@ package routetab
 //@ # the state store, seen from the route table: a write is counted (ghost), so that "a change of
 //@ # the in-memory routes of a target reaches the store" can be a postcondition
 //@ ghost storeWrites int
+//@ ghost lastStoreKey string
 //@ extern func (github.com/gauss-project/aurorafs/pkg/storage.StateStorer).Put
-//@   assigns ghost storeWrites
-//@   ensures storeWrites == old(storeWrites) + 1
+//@   assigns ghost storeWrites, ghost lastStoreKey
+//@   ensures storeWrites == old(storeWrites) + 1 && lastStoreKey == key
 //@ extern func (github.com/gauss-project/aurorafs/pkg/storage.StateStorer).Delete
-//@   assigns ghost storeWrites
-//@   ensures storeWrites == old(storeWrites) + 1
+//@   assigns ghost storeWrites, ghost lastStoreKey
+//@   ensures storeWrites == old(storeWrites) + 1 && lastStoreKey == key
 
 //@ # IterateTarget calls fn for the items before the last hop, and does nothing else
 //@ func (*Table).IterateTarget
@@ -70,6 +71,7 @@ package routetab
 //@   requires t != nil && t.store != nil
 //@   iterinv bounded: routesBounded(t)
 //@   ensures change-is-persisted: t.routes[tkey(target)] != old(t.routes[tkey(target)]) ==> storeWrites > old(storeWrites)
+//@   ensures persisted-under-the-key-the-reload-reads: t.routes[tkey(target)] != old(t.routes[tkey(target)]) ==> lastStoreKey == routePrefix + strOf(target)
 //@   ensures target-has-the-route-first: present(t.routes, tkey(target)) && len(t.routes[tkey(target)]) >= 1 && (old(!present(t.routes, tkey(target))) ==> len(t.routes[tkey(target)]) == 1)
 //@   ensures other-targets-untouched: forall k common.Hash :: k != tkey(target) ==> (present(t.routes, k) <==> old(present(t.routes, k))) && t.routes[k] == old(t.routes[k])
 
@@ -85,6 +87,7 @@ package routetab
 //@   requires t != nil && t.store != nil
 //@   iterinv bounded: routesBounded(t)
 //@   ensures change-is-persisted: t.routes[tkey(target)] != old(t.routes[tkey(target)]) ==> storeWrites > old(storeWrites)
+//@   ensures persisted-under-the-key-the-reload-reads: t.routes[tkey(target)] != old(t.routes[tkey(target)]) || present(t.routes, tkey(target)) != old(present(t.routes, tkey(target))) ==> lastStoreKey == routePrefix + strOf(target)
 //@   ensures no-route-to-the-deleted-path: present(t.routes, tkey(target)) ==> forall i :: 0 <= i && i < len(t.routes[tkey(target)]) ==> t.routes[tkey(target)][i].PathKey != pathKey
 //@   ensures other-targets-untouched: forall k common.Hash :: k != tkey(target) ==> (present(t.routes, k) <==> old(present(t.routes, k))) && t.routes[k] == old(t.routes[k])
 //@   loop 1 invariant 0 - 1 <= rangeindex && rangeindex < len(routes)
